@@ -48,8 +48,7 @@ impl<'a, F: Read + Write + Seek> MiniChain<'a, F> {
     pub fn set_len(&mut self, new_len: u64) -> io::Result<()> {
         debug_assert!(new_len < consts::MINI_STREAM_CUTOFF as u64);
         let sector_len = consts::MINI_SECTOR_LEN as u64;
-        let new_num_sectors =
-            ((sector_len + new_len - 1) / sector_len) as usize;
+        let new_num_sectors = new_len.div_ceil(sector_len) as usize;
         if new_num_sectors == 0 {
             if let Some(&start_sector) = self.sector_ids.first() {
                 self.minialloc.free_mini_chain(start_sector)?;
